@@ -23,6 +23,9 @@ def rule_H1(ctx, F):
     nsites = 0
     for path, dom, text in H1_DOMAINS:
         fn = F.need_fn(path)
+        if text == "any usize":
+            from absint import INT_BITS
+            dom = {k: AV(0, (1 << INT_BITS["usize"]) - 1) for k in dom}      # the configuration's pointer width
         for name in dom:
             if name not in fn.names.values():
                 raise MissingAnchor("parameter %s of %s" % (name, path))
